@@ -567,7 +567,7 @@ def run_dora_requests(ctx, exe, ids, reqs, singles):
     byidx = {r.idx: r for r in reqs}
     refused_cls = {}
     state = {"refusals": 0}
-    budget = int(ctx.opts.get("dora_refusals", ctx.pick(300, 2500)))
+    budget = int(ctx.opts.get("dora_refusals", ctx.pick(300, 1200)))
     per_class = int(ctx.opts.get("dora_refusals_per_class", ctx.pick(1, 2)))
 
     def cls(r):
@@ -659,7 +659,7 @@ def run_dora(ctx, work):
     # covering sample in both tiers: single-operand register sweeps + boundary sweeps (the exhaustive pair sweeps are
     # run against the Rust assembler only)
     reqs, uncovered = build_requests(ctx, "dora", methods, "dora-requests", tier="quick",
-                                     scale=float(ctx.opts.get("dora_scale", ctx.pick("0.5", "3"))))
+                                     scale=float(ctx.opts.get("dora_scale", ctx.pick("0.5", "2"))))
     for name, why in uncovered:
         ctx.violation("c08:uncovered-method:dora.%s" % name,
                       "public method `%s` of pkgs/boots/assembler/arm64.dora is not covered by the C08 tables: %s" % (name, why))
